@@ -176,7 +176,7 @@ impl Check for C13 {
                 7 | 8 => vec!["TOPIC".into(), "#c".into(), texts(&mut r, k)],
                 9 => vec!["WALLOPS".into(), texts(&mut r, k)],
                 10 => vec!["AWAY".into(), texts(&mut r, k)],
-                11 => vec!["KICK".into(), "#c".into(), "nobody".into(), texts(&mut r, k)],
+                11 => vec!["KICK".into(), "#c".into(), ["nobody", "rone", "rone"][r.below(3)].into(), texts(&mut r, k)],
                 12 => vec!["INVITE".into(), "rtwo".into(), "#c".into()],
                 13 => vec!["PART".into(), "#zz".into(), texts(&mut r, k)],
                 14 => vec!["MODE".into(), "#c".into(), "+b".into(), ["*!*@2001:db8::1", "x!*@*", "a:b!*@*", "*!*@::1"][r.below(4)].into()],
@@ -217,6 +217,11 @@ impl Check for C13 {
             a.push(Action::Mark { m: format!("variant:{}", esc(var.as_bytes())) });
             a.push(Action::Mark { m: format!("tokens:{}", t.iter().map(|x| esc(x.as_bytes())).collect::<Vec<_>>().join("\u{1f}")) });
             line(&mut a, S, &can);
+            if t[0] == "KICK" && t.get(2).map_or(false, |x| x == "rone") && t.len() >= 3 {
+                // the kicked receiver comes back (and gets its ranks back) so that later lines still reach it
+                line(&mut a, R1, "JOIN #c");
+                line(&mut a, S, "MODE #c +ov rone rone");
+            }
             if t[0] == "AWAY" && !t[1].is_empty() {
                 a.push(Action::Mark { m: format!("away_probe:{}", esc(t[1].as_bytes())) });
                 line(&mut a, R2, "PRIVMSG subj :are you away");
